@@ -888,7 +888,10 @@ namespace occa {
   }
 
   void dtypeTuple_t::addFlatDtypes(dtypeVector_t &vec) const {
-    for (int i = 0; i < size; ++i) {
+    // A tuple of unknown size (size < 0, e.g. the parameter 'float x[n]'
+    // with a run-time n) holds any number of entries: flatten a single one
+    const int entries = (size < 0) ? 1 : size;
+    for (int i = 0; i < entries; ++i) {
       dtype.addFlatDtypes(vec);
     }
   }
